@@ -599,6 +599,8 @@ class LoopMixin:
         itv = self.resolve(itv)
         if getattr(itv, 'shared_iterator', False):
             self.event('mutate-shared', node, target=itv, how='a module-level iterator is advanced')
+        if getattr(itv, 'late', None) is not None:
+            itv = self.regen_genexp(itv)
         if getattr(itv, 'lazy_unforced', False):
             self.note_unknown(node, 'generator expression over a generator call consumed outside a for statement of the function that made it')
         if isinstance(itv, GenCallV):
